@@ -65,3 +65,43 @@ Proof.
     match goal with A : Some _ = Some _ |- _ => inversion A end.
 Qed.
 Print Assumptions C13_example.
+
+(** REGISTRATIONS OF DISTINCT NAMES COMMUTE, AND NONE IS LOST (the fact behind the oracle of the concurrent-registrations family:
+    every sequential order of one round's registrations leaves the same table, in which every one of them is in force) - in the
+    evaluator's registry model, for all four registries. *)
+From EE Require Import OpTable Eval EvalLemmas.
+Lemma assoc_swap {A} (a b : str) (va vb : A) l op : a <> b ->
+  assoc op ((b, vb) :: (a, va) :: l) = assoc op ((a, va) :: (b, vb) :: l).
+Proof.
+  intros H. cbn [assoc]. destruct (str_eqb op b) eqn:Eb, (str_eqb op a) eqn:Ea; try reflexivity.
+  apply str_eqb_eq in Eb, Ea. congruence.
+Qed.
+Theorem C13_registrations_of_distinct_names_commute : forall st a b ca ha cb hb fa fb, a <> b ->
+  (let s1 := reg_infix (reg_infix st a ca ha) b cb hb in let s2 := reg_infix (reg_infix st b cb hb) a ca ha in
+   (forall op, assoc op (r_infix (s_regs s1)) = assoc op (r_infix (s_regs s2))) /\
+   assoc a (r_infix (s_regs s1)) = Some (ca, ha) /\ assoc b (r_infix (s_regs s1)) = Some (cb, hb)) /\
+  (let s1 := reg_func (reg_func st a fa) b fb in let s2 := reg_func (reg_func st b fb) a fa in
+   (forall op, assoc op (r_func (s_regs s1)) = assoc op (r_func (s_regs s2))) /\
+   assoc a (r_func (s_regs s1)) = Some fa /\ assoc b (r_func (s_regs s1)) = Some fb) /\
+  (let s1 := reg_prefix (reg_prefix st a fa) b fb in let s2 := reg_prefix (reg_prefix st b fb) a fa in
+   (forall op, assoc op (r_prefix (s_regs s1)) = assoc op (r_prefix (s_regs s2))) /\
+   assoc a (r_prefix (s_regs s1)) = Some fa /\ assoc b (r_prefix (s_regs s1)) = Some fb) /\
+  (let s1 := reg_postfix (reg_postfix st a fa) b fb in let s2 := reg_postfix (reg_postfix st b fb) a fa in
+   (forall op, assoc op (r_postfix (s_regs s1)) = assoc op (r_postfix (s_regs s2))) /\
+   assoc a (r_postfix (s_regs s1)) = Some fa /\ assoc b (r_postfix (s_regs s1)) = Some fb).
+Proof.
+  intros st a b ca ha cb hb fa fb H.
+  repeat split; cbn -[assoc]; intros;
+    try (apply assoc_swap; exact H);
+    try (rewrite assoc_cons_other by (intro E; apply H; symmetry; exact E); apply assoc_cons_same);
+    try apply assoc_cons_same.
+Qed.
+Print Assumptions C13_registrations_of_distinct_names_commute.
+(* registrations into different registries do not touch each other at all *)
+Theorem C13_registries_are_independent : forall st a b ca ha fb,
+  r_infix (s_regs (reg_func (reg_infix st a ca ha) b fb)) = r_infix (s_regs (reg_infix (reg_func st b fb) a ca ha)) /\
+  r_func (s_regs (reg_func (reg_infix st a ca ha) b fb)) = r_func (s_regs (reg_infix (reg_func st b fb) a ca ha)) /\
+  r_prefix (s_regs (reg_prefix (reg_postfix st a fb) b fb)) = r_prefix (s_regs (reg_postfix (reg_prefix st b fb) a fb)) /\
+  r_postfix (s_regs (reg_prefix (reg_postfix st a fb) b fb)) = r_postfix (s_regs (reg_postfix (reg_prefix st b fb) a fb)).
+Proof. intros. repeat split; reflexivity. Qed.
+Print Assumptions C13_registries_are_independent.
